@@ -401,6 +401,9 @@ class TorchCalls(TorchOps):
                 return Const(v.kind == "tensor")
             if isinstance(v, (ListV, SetV, DictV)):
                 return FALSE
+        if isinstance(cls, ExtV) and cls.name.split(".")[-1] in ("Sequence", "list", "tuple", "Sized", "Collection", "Iterable") and isinstance(v, ListV) and v.kind in ("list", "tuple") and v.it is None:
+            nm = cls.name.split(".")[-1]
+            return Const(nm in ("Sequence", "Sized", "Collection", "Iterable") or nm == v.kind)
         return TV(kind="pybool", dtype="Bool", note="isinstance")
 
     def length(self, v, node):
